@@ -371,10 +371,16 @@ def exec_for(I, st, node):
             continue
         sym = symbolic_iter(I, st1, it)
         if sym is None:
-            items = I.iterate(it, st1)
+            live = live_list_ref(I, st1, it)
+            if live is not None:
+                # `for x in <list object>`: Python's list iterator reads the LIVE list by index at every step
+                lazy_note(st1, live, st1.get(live).items)
+                yield from unroll_live(I, st1, node, live, 0)
+                continue
+            items, watch = iterate_watched(I, st1, it)
             if len(items) > 4000:
                 raise Unsupported("loop over %d items" % len(items))
-            yield from unroll_for(I, st1, node, items, 0)
+            yield from unroll_for(I, st1, node, items, 0, watch=watch)
             continue
         linv = I.loop_invariants.get((qual, ordinal))
         if linv is None and sym.get("kind") == "count" and isinstance(sym["lo"], int) and isinstance(sym["step"], int):
@@ -387,11 +393,127 @@ def exec_for(I, st, node):
         yield from invariant_for(I, st1, node, sym, linv, qual, ordinal)
 
 
-def unroll_for(I, st, node, items, k):
+# ---- lists changed while they are being iterated ---------------------------------------------------------------
+# Python iterates a list by index over the live object; generators / generator expressions / iter() are lazy.  The
+# engine evaluates the latter EAGERLY to a list (A3).  That is only faithful while no list the lazy iterator reads is
+# changed before the consumer has finished: every list iterated during an eager evaluation is recorded (lazy_note) and
+# the record is attached to the resulting list (lazy_end); a for loop / comprehension consuming such a list re-checks
+# the record before every step (lazy_check) and raises Unsupported on a change - never a wrong verdict.
+_REC = "__lazy_iter_rec__"
+
+
+def live_list_ref(I, st, it):
+    """the list entity a `for` over `it` walks by index, or None"""
+    if not isinstance(it, Ref) or ("lazy_src", it.id) in st.ghost:
+        return None
+    e = st.get(it)
+    if e.kind == "list" and type(e) is ListE:
+        return it
+    if e.kind == "obj" and "__list__" in e.attrs and I.class_lookup(e.cls, "__iter__")[0] is None:
+        inner = e.attrs["__list__"]
+        if isinstance(inner, Ref) and type(st.get(inner)) is ListE:
+            return inner
+    return None
+
+
+def lazy_begin(st):
+    old = st.ghost.get(_REC)
+    st.ghost[_REC] = ()
+    return old
+
+
+def lazy_end(st, old, acc):
+    rec = st.ghost.get(_REC, ())
+    if old is None:
+        st.ghost.pop(_REC, None)
+    else:
+        st.ghost[_REC] = old + rec
+    if rec and isinstance(acc, Ref):
+        st.ghost[("lazy_src", acc.id)] = rec
+
+
+def lazy_note(st, ref, items):
+    """called for every list that is iterated: remember it (and what an eager list iterated here itself depends on)"""
+    deps = st.ghost.get(("lazy_src", ref.id), ())
+    if _REC in st.ghost:
+        st.ghost[_REC] = st.ghost[_REC] + ((ref.id, tuple(items)),) + deps
+    if deps:
+        st.ghost["__last_lazy__"] = st.ghost.get("__last_lazy__", ()) + deps
+
+
+def iterate_watched(I, st, it):
+    """(items, record of the lists an eagerly evaluated lazy iterator among them was computed from)"""
+    st.ghost.pop("__last_lazy__", None)
+    items = I.iterate(it, st)
+    return items, st.ghost.pop("__last_lazy__", None)
+
+
+def _same_items(cur, snap):
+    if len(cur) != len(snap):
+        return False
+    for a, b in zip(cur, snap):
+        if a is b:
+            continue
+        if type(a) is type(b) and isinstance(a, (int, str, bool, float, Fraction, Ref)) and a == b:
+            continue
+        return False
+    return True
+
+
+def lazy_check(st, rec):
+    for rid, snap in rec or ():
+        e = st.store.get(rid)
+        if e is None or not _same_items(e.items, snap):
+            raise Unsupported("a list is changed while an eagerly evaluated lazy iterator (generator / iter()) over it is still being consumed")
+
+
+def unroll_live(I, st, node, ref, k):
+    """`for x in <list object>`: Python walks the LIVE list by index (a list changed by the body is seen changed)"""
+    while True:
+        items = st.get(ref).items
+        if k > 4000:
+            raise Unsupported("loop over more than 4000 items")
+        if k >= len(items):
+            if node.orelse:
+                yield from I.ex_block(node.orelse, st)
+            else:
+                yield st, None
+            return
+        outs = list(I.assign(node.target, items[k], st))
+        if len(outs) == 1 and not isinstance(outs[0][1], Exc):
+            body = list(I.ex_block(node.body, outs[0][0]))
+            if len(body) == 1 and (body[0][1] is None or body[0][1][0] == "continue"):
+                st = body[0][0]
+                k += 1
+                continue
+            yield from _live_rest(I, body, node, ref, k)
+            return
+        for st1, r in outs:
+            if isinstance(r, Exc):
+                yield st1, ("raise", r.exc)
+                continue
+            yield from _live_rest(I, list(I.ex_block(node.body, st1)), node, ref, k)
+        return
+
+
+def _live_rest(I, body, node, ref, k):
+    for st2, ctrl in body:
+        if ctrl is None or ctrl[0] == "continue":
+            yield from unroll_live(I, st2, node, ref, k + 1)
+        elif ctrl[0] == "break":
+            yield st2, None
+        else:
+            yield st2, ctrl
+
+
+def unroll_for(I, st, node, items, k, watch=None):
     # An iteration with exactly one outcome that falls through is followed by the next one in a loop, not by recursion
     # (same order of evaluation as the recursive formulation; a loop over a thousand concrete items would otherwise
-    # exceed the interpreter's recursion limit).
+    # exceed the interpreter's recursion limit).  `watch`: record of the lists an eagerly evaluated lazy iterator was
+    # computed from - re-checked before every step (lazy_check).
     while True:
+        if watch is not None and k > 0:
+            lazy_check(st, watch)
         if k == len(items):
             if node.orelse:
                 yield from I.ex_block(node.orelse, st)
@@ -405,13 +527,13 @@ def unroll_for(I, st, node, items, k):
                 st = body[0][0]
                 k += 1
                 continue
-            yield from _unroll_rest(I, body, node, items, k)
+            yield from _unroll_rest(I, body, node, items, k, watch)
             return
         for st1, r in outs:
             if isinstance(r, Exc):
                 yield st1, ("raise", r.exc)
                 continue
-            yield from _unroll_rest(I, list(I.ex_block(node.body, st1)), node, items, k)
+            yield from _unroll_rest(I, list(I.ex_block(node.body, st1)), node, items, k, watch)
         return
 
 
@@ -442,10 +564,10 @@ def unroll_count(I, st, node, lo, step, qual, ordinal):
         work = nxt + work
 
 
-def _unroll_rest(I, body, node, items, k):
+def _unroll_rest(I, body, node, items, k, watch=None):
     for st2, ctrl in body:
         if ctrl is None or ctrl[0] == "continue":
-            yield from unroll_for(I, st2, node, items, k + 1)
+            yield from unroll_for(I, st2, node, items, k + 1, watch)
         elif ctrl[0] == "break":
             yield st2, None
         else:
@@ -654,8 +776,10 @@ def call_generator(I, st, f, args, kwargs):
     vars["__yields__"] = acc
     fr = Frame(vars, f, f.module, f.cls)
     st.frames.append(fr)
+    old = lazy_begin(st)
     for st1, ctrl in I.ex_block(f.node.body, st):
         st1.frames.pop()
+        lazy_end(st1, old, acc)
         if ctrl is None or ctrl[0] == "return":
             yield st1, acc
         elif ctrl[0] == "raise":
